@@ -301,6 +301,17 @@ def p_t_reversible_mp(Qn, pi, t, dps=40):
         return out
 
 
+def p_t_reversible_eigh(Qn, pi, t):
+    """expm(t Qn) of a reversible generator through numpy's symmetric eigen-decomposition
+    (float64; a second, algorithmically different opinion next to scipy's Pade expm)"""
+    Qn = np.asarray(Qn, dtype=float)
+    s = np.sqrt(np.asarray(pi, dtype=float))
+    S = s[:, None] * Qn / s[None, :]
+    S = (S + S.T) / 2.0
+    e, v = np.linalg.eigh(S)
+    return (v * np.exp(e * float(t))[None, :]) @ v.T * s[None, :] / s[:, None]
+
+
 def structure(Q, pi):
     """structural facts about a rate matrix: worst |row sum|, smallest off-diagonal, worst
     relative asymmetry of the exchangeabilities Q_ij/pi_j, norm, scale (largest |entry|)"""
